@@ -96,6 +96,10 @@ def St.parse (st : St) : List String → Op
     | _, _ => .bad
   | ["wh_drop", w] => match wh? w with | some w => .whDrop w | none => .bad
   | "burst" :: _ => .burst
+  | ["lookup", sc, n, t] =>
+    match st.ref? sc, st.ref? n, st.ref? t with
+    | some sc, some n, some t => .lookup sc n t
+    | _, _, _ => .bad
   | _ => .bad
 
 def St.name (st : St) (id : Id) : String :=
